@@ -10,7 +10,8 @@ package main
 //   1;cov=<s-e:i runs>;sets=<set>|<set>...           set = n (nil) or [rule,rule...]
 //   2;cov=<s-e:i runs>;cd=<s-e:c runs>;sets=...       rule = in.in.in>seq:lookup.seq:lookup
 //   3;covs=<s-e runs>|<s-e runs>...;acts=seq:lookup.seq:lookup
-// readNested has no hook of its own: it is driven through the three readers.
+// V lines `tmseqctx.nested bytes=<hex> pos=<n> count=<n>` run gtab.VerifReadNested (readNested with
+// the parser at pos) and print "ok:" and the records seq:lookup.seq:lookup or the outcome class.
 // The generator registers itself in totalModelGens["seqctx"] and is called from areaTotal.
 
 import (
@@ -195,7 +196,23 @@ func init() {
 			return "ok:" + totalSeqctxShowSub(s)
 		}))
 	}
-	totalModelGens["seqctx"] = totalSeqctxGen
+	ops["tmseqctx.nested"] = func(f Fields) string {
+		return totalCanonPanic(guard(func() string {
+			b, pos, count := f.Hex("bytes"), f.Int("pos"), f.Int("count")
+			if pos < 0 || count < 0 {
+				return "bad-case"
+			}
+			aa, err := gtab.VerifReadNested(b, int64(pos), count)
+			if err != nil {
+				return totalErrClass(err)
+			}
+			return "ok:" + totalSeqctxShowActions(aa)
+		}))
+	}
+	totalModelGens["seqctx"] = func(c *Ctx, r *Rng, seeds []totalSeed) {
+		totalSeqctxGen(c, r, seeds)
+		totalSeqctxGenNested(c, r)
+	}
 }
 
 // ---- builders
@@ -703,6 +720,105 @@ func totalSeqctxHeavy(b []byte, pos int) bool {
 		return ""
 	})
 	return heavy
+}
+
+// totalSeqctxGenNested: V lines `tmseqctx.nested bytes=<hex> pos=<n> count=<n>` (readNested through
+// gtab.VerifReadNested): counts 0, 1, many; 4*count against the remaining bytes (exact, one byte
+// short, one byte long); pos inside, at and after the end; random.  About c.N/6 cases; counts stay
+// below 5000 in the quick tier (the full 16-bit range in the thorough one).
+func totalSeqctxGenNested(c *Ctx, r *Rng) {
+	budget := c.N / 6
+	cnt := 0
+	seen := map[string]bool{}
+	emit := func(gen string, b []byte, pos, count int) {
+		key := strconv.Itoa(pos) + " " + strconv.Itoa(count) + " " + string(b)
+		if seen[key] || pos < 0 || count < 0 {
+			return
+		}
+		seen[key] = true
+		out := c.Case(Verdict, "tmseqctx.nested",
+			"bytes="+hx(b)+" pos="+strconv.Itoa(pos)+" count="+strconv.Itoa(count), count > 0)
+		cnt++
+		cl := out
+		if strings.HasPrefix(out, "ok:") {
+			switch {
+			case count == 0:
+				cl = "ok:0"
+			case count == 1:
+				cl = "ok:1"
+			default:
+				cl = "ok:many"
+			}
+		}
+		c.Stat("tmseqctx:nested", cl)
+		c.Stat("tmseqctx:nested:gen", gen)
+	}
+	maxCount := 4999
+	if c.Tier == "thorough" {
+		maxCount = 0xffff
+	}
+	// boundaries (always): every small count against data of 4*k bytes and 4*k +- 1..3 bytes
+	for _, k := range []int{0, 1, 2, 3, 7} {
+		for _, d := range []int{-3, -1, 0, 1, 4} {
+			n := 4*k + d
+			if n < 0 {
+				continue
+			}
+			b := r.Bytes(n)
+			for _, count := range []int{0, 1, k, k + 1} {
+				emit("boundary", b, 0, count)
+			}
+		}
+	}
+	{
+		b := r.Bytes(12)
+		for _, pos := range []int{0, 1, 4, 8, 9, 11, 12, 13, 1000} { // inside, at and after the end
+			for _, count := range []int{0, 1, 2, 3} {
+				emit("pos", b, pos, count)
+			}
+		}
+		emit("empty", nil, 0, 0)
+		emit("empty", nil, 0, 1)
+		emit("empty", nil, 5, 0)
+		emit("empty", nil, 5, maxCount)
+	}
+	// many records: exact, one byte short, one record short, count far beyond the data, the largest count
+	for _, k := range []int{50, 300, 1100} {
+		b := r.Bytes(4 * k)
+		emit("many", b, 0, k)
+		emit("many", b[:4*k-1], 0, k)
+		emit("many", b, 0, k+1)
+		emit("many", b, 4, k-1)
+		emit("many", b, 4, k)
+		emit("many", b[:40], 0, maxCount)
+	}
+	// random
+	for it := 0; cnt < budget && it < 20*budget+100; it++ {
+		n := r.Range(0, 60)
+		b := r.Bytes(n)
+		pos := 0
+		if r.Chance(1, 3) {
+			pos = r.Range(0, n+2)
+		}
+		rest := n - pos
+		if rest < 0 {
+			rest = 0
+		}
+		count := rest / 4
+		switch r.Intn(6) {
+		case 0:
+			count++
+		case 1:
+			if count > 0 {
+				count--
+			}
+		case 2:
+			count = r.Range(0, 20)
+		case 3:
+			count = Pick(r, []int{0, 1, 255, 256, 1024, 1025, maxCount})
+		}
+		emit("random", b, pos, count)
+	}
 }
 
 func totalSeqctxGen(c *Ctx, r *Rng, seeds []totalSeed) {
